@@ -231,9 +231,18 @@ WireMutsOf(f, sq) ==
     [] f = "kid" -> KidMuts
     [] f = "val" -> (NumMuts \ {"none"}) \ (IF sq THEN {"otherroot"} ELSE {})
     [] f = "struct" -> {"trunc0", "trunc1", "trunc2", "nodelim", "swap", "extra", "dupdelim"}
-MutWire(W, f, mu, k) ==
+\* "enc": the encoding itself is altered by somebody who can extract roots (the owner of the key) or who knows the
+\* SAEP block (the encryptor): one byte of it (pos, counted from the most significant byte of the n-byte encoding), or
+\* the bits above it ("top": the number encoding + 2^(8n), still below the modulus).  The result is a square that is
+\* no encoding; for a signature its root is presented, for a ciphertext the square.  Bytes of the message part of a
+\* SAEP block are not in the catalogue: altering them gives the encryption of another plaintext.
+AltT(x, mu, pos) == [t |-> "alt", k |-> x.k, d |-> x, salt |-> 2 * pos + (IF mu = "top" THEN 1 ELSE 0)]
+EncBytes(k) == BitsOf(k) \div 8
+EncPositions(k, sq) == IF sq THEN S0..(EncBytes(k) - 1) ELSE 0..(EncBytes(k) - 1)
+MutWire(W, f, mu, k, pos) ==
   LET sid == SidOf(k)  n == Len(sid) IN
-  CASE f = "magic" -> [W EXCEPT !.magic = CASE mu = "alt" -> "xxx"
+  CASE f = "enc" -> [W EXCEPT !.v = IF W.v.t = "root" THEN Root(AltT(W.v.x, mu, pos), 0, 1) ELSE SqV(AltT(W.v.x, mu, pos))]
+    [] f = "magic" -> [W EXCEPT !.magic = CASE mu = "alt" -> "xxx"
                                            [] mu = "swapkind" -> (IF W.magic = "sig" THEN "enc" ELSE "sig")
                                            [] mu = "empty" -> ""
                                            [] OTHER -> "UPPER"]
@@ -270,14 +279,14 @@ RootIx(r) == 2 * r[1] + (IF r[2] = 1 THEN 0 ELSE 1)
 \* op verify: c = [k, d, salt, root, f, mu, kv, rel]
 VerifyCase(c) ==
   LET k == c.k  W == SigObj(k, c.d, 0, c.root[1], c.root[2])
-      W2 == IF c.mu = "none" THEN W ELSE MutWire(W, c.f, c.mu, k)
+      W2 == IF c.mu = "none" THEN W ELSE MutWire(W, c.f, c.mu, k, c.pos)
       kv == IF c.kv = "same" THEN k ELSE OtherKey(k)
       pad == {<<Mk(k), PadId(k, Did(c.d, "same"), 0), Did(c.d, "same")>>,
               <<Mk(OtherKey(k)), PadId(OtherKey(k), Did(c.d, "same"), 0), Did(c.d, "same")>>}
       acc == VerifyOK(pad, KView(kv), Did(c.d, c.rel), WireProj(Mk(kv), W2))
   IN [op |-> "verify", key |-> k, size |-> KeyAttr[k].size, nizk |-> KeyAttr[k].nizk,
       okey |-> OtherKey(k), osize |-> KeyAttr[OtherKey(k)].size, onizk |-> KeyAttr[OtherKey(k)].nizk,
-      d |-> c.d, salt |-> c.salt, root |-> RootIx(c.root), f |-> c.f, mu |-> c.mu, kv |-> c.kv, rel |-> c.rel,
+      d |-> c.d, salt |-> c.salt, root |-> RootIx(c.root), f |-> c.f, mu |-> c.mu, pos |-> c.pos, kv |-> c.kv, rel |-> c.rel,
       exp |-> IF acc THEN "acc" ELSE "ref",
       eqv |-> c.mu # "none" /\ acc,
       thm |-> /\ (c.mu = "none" /\ c.kv = "same" /\ c.rel = "same") => acc              \* signatures verify
@@ -286,19 +295,20 @@ VerifyCase(c) ==
               /\ (c.f = "val" /\ c.mu \in {"comp", "neg", "otherroot", "plusm", "minusm", "lead0", "space"}
                     /\ c.kv = "same" /\ c.rel = "same") => acc                          \* all four roots verify
               /\ (c.f = "val" /\ c.mu \in {"plus1", "otherres", "zero", "one", "mm1", "m", "double", "oversized",
-                                           "half", "pub", "foreign", "empty", "nonnum"}) => ~acc]
+                                           "half", "pub", "foreign", "empty", "nonnum"}) => ~acc
+              /\ c.f = "enc" => ~acc]                                                   \* no other square is an encoding
 
 \* op decrypt: c = [k, pt, r, f, mu, kv]
 DecryptCase(c) ==
   LET k == c.k  fits == SAEPFits(BitsOf(k))
       W == EncObj(k, c.pt, c.r)
-      W2 == IF c.mu = "none" THEN W ELSE MutWire(W, c.f, c.mu, k)
+      W2 == IF c.mu = "none" THEN W ELSE MutWire(W, c.f, c.mu, k, c.pos)
       kv == IF c.kv = "same" THEN k ELSE OtherKey(k)
       enc == IF fits THEN {<<Mk(k), Res(Mk(k), W.v), c.pt>>} ELSE {}     \* no honest ciphertext exists under a small key
       acc == DecryptOK(enc, KView(kv), WireProj(Mk(kv), W2))
   IN [op |-> "decrypt", key |-> k, size |-> KeyAttr[k].size, nizk |-> KeyAttr[k].nizk,
       okey |-> OtherKey(k), osize |-> KeyAttr[OtherKey(k)].size, onizk |-> KeyAttr[OtherKey(k)].nizk,
-      pt |-> c.pt, r |-> c.r, fab |-> ~fits, f |-> c.f, mu |-> c.mu, kv |-> c.kv,
+      pt |-> c.pt, r |-> c.r, fab |-> ~fits, f |-> c.f, mu |-> c.mu, pos |-> c.pos, kv |-> c.kv,
       exp |-> IF acc THEN "acc" ELSE "ref",
       out |-> IF acc THEN DecryptVal(enc, KView(kv), WireProj(Mk(kv), W2)) ELSE "",
       eqv |-> c.mu # "none" /\ acc,
@@ -307,7 +317,8 @@ DecryptCase(c) ==
                         /\ DecryptVal(enc, KView(kv), WireProj(Mk(kv), W2)) = c.pt    \* the value that was encrypted
               /\ (c.f = "val" /\ c.mu \in {"plusm", "minusm", "lead0", "space"} /\ c.kv = "same" /\ fits) => acc
               /\ (c.f = "val" /\ c.mu \in {"comp", "neg", "plus1", "otherres", "zero", "one", "mm1", "m", "double",
-                                           "oversized", "half", "pub", "foreign", "empty", "nonnum"}) => ~acc]
+                                           "oversized", "half", "pub", "foreign", "empty", "nonnum"}) => ~acc
+              /\ c.f = "enc" => ~acc]
 
 \* op check: c = [k, f, mu, resign]
 CheckCase(c) ==
@@ -356,27 +367,35 @@ VObjects(k) ==          \* objects: [d, salt, root]
        \cup {[d |-> d, salt |-> "rnd", root |-> r] : d \in DataClasses, r \in {<<0, 1>>, <<1, -1>>}}
        \cup {[d |-> "short", salt |-> "topzero", root |-> r] : r \in {<<0, -1>>, <<1, 1>>}}
 \* uses of an object: [f, mu, kv, rel]; "full" objects get the whole catalogue, the others a selection
-VUses(o, full) ==
+VUses(k, o, full) ==
   LET rels == {r \in DataRels : RelApplies(o.d, r)}
-      none == {[f |-> "val", mu |-> "none", kv |-> kv, rel |-> rel] : kv \in {"same", "other"}, rel \in rels}
+      none == {[f |-> "val", mu |-> "none", pos |-> -1, kv |-> kv, rel |-> rel] : kv \in {"same", "other"}, rel \in rels}
       cat == UNION {{[f |-> f, mu |-> mu] : mu \in WireMutsOf(f, FALSE)} : f \in WireFields}
       light == {x \in cat : x.f = "val" /\ x.mu \in {"comp", "neg", "otherroot", "plus1", "plusm", "double"}}
   IN none
-     \cup {[f |-> x.f, mu |-> x.mu, kv |-> "same", rel |-> "same"] : x \in IF full THEN cat ELSE light}
-     \cup (IF full THEN {[f |-> x.f, mu |-> x.mu, kv |-> "other", rel |-> "same"] :
+     \cup {[f |-> x.f, mu |-> x.mu, pos |-> -1, kv |-> "same", rel |-> "same"] : x \in IF full THEN cat ELSE light}
+     \cup (IF full THEN {[f |-> x.f, mu |-> x.mu, pos |-> -1, kv |-> "other", rel |-> "same"] :
                             x \in {z \in cat : T \/ z.f = "kid" \/ z.mu \in {"comp", "plusm"}}} ELSE {})
-     \cup (IF full THEN {[f |-> "val", mu |-> mu, kv |-> "same", rel |-> rel] : mu \in {"comp", "plus1"}, rel \in rels} ELSE {})
+     \cup (IF full THEN {[f |-> "val", mu |-> mu, pos |-> -1, kv |-> "same", rel |-> rel] : mu \in {"comp", "plus1"}, rel \in rels} ELSE {})
+     \cup (IF full /\ (T \/ o.root = <<0, 1>>)
+          THEN {[f |-> "enc", mu |-> "byte", pos |-> p, kv |-> "same", rel |-> "same"] : p \in EncPositions(k, FALSE)}
+               \cup {[f |-> "enc", mu |-> "top", pos |-> 0, kv |-> "same", rel |-> "same"]}
+          ELSE {})
 VFull(k, o) == T \/ (o.d = "short" /\ o.salt = "rnd" /\ o.root \in {<<0, 1>>, <<1, -1>>} /\ k \in {"A", "B"})
 
 DObjects(k) == IF T THEN {[pt |-> p, r |-> r] : p \in PtClasses, r \in RClasses}
                ELSE {[pt |-> p, r |-> "rnd"] : p \in PtClasses} \cup {[pt |-> "rnd", r |-> r] : r \in RClasses}
-DUses(o, full) ==
-  LET none == {[f |-> "val", mu |-> "none", kv |-> kv] : kv \in {"same", "other"}}
+DUses(k, o, full) ==
+  LET none == {[f |-> "val", mu |-> "none", pos |-> -1, kv |-> kv] : kv \in {"same", "other"}}
       cat == UNION {{[f |-> f, mu |-> mu] : mu \in WireMutsOf(f, TRUE)} : f \in WireFields}
       light == {x \in cat : x.f = "val" /\ x.mu \in {"plusm", "comp", "plus1", "double"}}
   IN none
-     \cup {[f |-> x.f, mu |-> x.mu, kv |-> "same"] : x \in IF full THEN cat ELSE light}
-     \cup (IF full THEN {[f |-> x.f, mu |-> x.mu, kv |-> "other"] : x \in {z \in cat : T \/ z.f = "kid" \/ z.mu = "plusm"}} ELSE {})
+     \cup {[f |-> x.f, mu |-> x.mu, pos |-> -1, kv |-> "same"] : x \in IF full THEN cat ELSE light}
+     \cup (IF full THEN {[f |-> x.f, mu |-> x.mu, pos |-> -1, kv |-> "other"] : x \in {z \in cat : T \/ z.f = "kid" \/ z.mu = "plusm"}} ELSE {})
+     \cup (IF full /\ SAEPFits(BitsOf(k))
+          THEN {[f |-> "enc", mu |-> "byte", pos |-> p, kv |-> "same"] : p \in EncPositions(k, TRUE)}
+               \cup {[f |-> "enc", mu |-> "top", pos |-> 0, kv |-> "same"]}
+          ELSE {})
 DFull(k, o) == T \/ (o.pt = "rnd" /\ o.r = "rnd")
 
 CUses(k) ==
@@ -393,11 +412,11 @@ Next ==
   \/ st.k = 1 /\ st.op = "decrypt" /\ \E o \in DObjects(st.key) : st' = [k |-> 2, op |-> st.op, key |-> st.key, o |-> o]
   \/ st.k = 1 /\ st.op = "check" /\ \E u \in {x \in CUses(st.key) : CUseOK(st.key, x) /\ CQuick(st.key, x)} :
         st' = [k |-> 3, c |-> CheckCase([k |-> st.key, f |-> u.f, mu |-> u.mu, resign |-> u.resign])]
-  \/ st.k = 2 /\ st.op = "verify" /\ \E u \in VUses(st.o, VFull(st.key, st.o)) :
+  \/ st.k = 2 /\ st.op = "verify" /\ \E u \in VUses(st.key, st.o, VFull(st.key, st.o)) :
         st' = [k |-> 3, c |-> VerifyCase([k |-> st.key, d |-> st.o.d, salt |-> st.o.salt, root |-> st.o.root,
-                                               f |-> u.f, mu |-> u.mu, kv |-> u.kv, rel |-> u.rel])]
-  \/ st.k = 2 /\ st.op = "decrypt" /\ \E u \in DUses(st.o, DFull(st.key, st.o)) :
-        st' = [k |-> 3, c |-> DecryptCase([k |-> st.key, pt |-> st.o.pt, r |-> st.o.r, f |-> u.f, mu |-> u.mu, kv |-> u.kv])]
+                                               f |-> u.f, mu |-> u.mu, pos |-> u.pos, kv |-> u.kv, rel |-> u.rel])]
+  \/ st.k = 2 /\ st.op = "decrypt" /\ \E u \in DUses(st.key, st.o, DFull(st.key, st.o)) :
+        st' = [k |-> 3, c |-> DecryptCase([k |-> st.key, pt |-> st.o.pt, r |-> st.o.r, f |-> u.f, mu |-> u.mu, pos |-> u.pos, kv |-> u.kv])]
 Spec == Init /\ [][Next]_st
 
 Theorems == st.k = 3 => st.c.thm
